@@ -271,6 +271,161 @@ impl SubCheck for SystemZone {
     }
 }
 
+// ---------------------------------------------------------------------------------------------
+// The public `Local` routes. `Local` reads the process environment, so every case runs in a child
+// process (`pbt c05-child`) whose TZ names the zone; the child reports what every public route to the
+// two lookups answers for a list of instants and wall-clock times, the parent judges them.
+#[derive(Clone, Debug, Serialize, Deserialize)]
+pub struct LReq {
+    pub inst: Vec<i64>,
+    pub wall: Vec<i64>,
+}
+#[derive(Clone, Debug, Serialize, Deserialize)]
+pub struct LResp {
+    /// per instant: (route, offset or panic message)
+    pub inst: Vec<Vec<(String, Result<i32, String>)>>,
+    /// per wall-clock time: (route, offsets earliest first or panic message)
+    pub wall: Vec<Vec<(String, Result<Vec<i32>, String>)>>,
+}
+
+#[allow(deprecated)]
+pub fn child(req_json: &str) -> i32 {
+    use chrono::{DateTime, Datelike, Local, Offset, TimeZone, Timelike, Utc};
+    let req: LReq = match serde_json::from_str(req_json) {
+        Ok(r) => r,
+        Err(e) => { eprintln!("c05-child: bad request: {e}"); return 2; }
+    };
+    let g = |f: &mut dyn FnMut() -> i32| -> Result<i32, String> { crate::guard::guard(|| f()) };
+    let mlt = |r: MappedLocalTime<i32>| match r { MappedLocalTime::None => vec![], MappedLocalTime::Single(a) => vec![a], MappedLocalTime::Ambiguous(a, b) => vec![a, b] };
+    let mut resp = LResp { inst: vec![], wall: vec![] };
+    for &u in &req.inst {
+        let mut rs: Vec<(String, Result<i32, String>)> = vec![];
+        if let Some(n) = ndt_of_unix(u) {
+            rs.push(("offset_from_utc_datetime".into(), g(&mut || Local.offset_from_utc_datetime(&n).fix().local_minus_utc())));
+            rs.push(("from_utc_datetime".into(), g(&mut || { let d = Local.from_utc_datetime(&n); if d.naive_utc() != n { return i32::MIN; } d.offset().fix().local_minus_utc() })));
+            rs.push(("with_timezone".into(), g(&mut || { let d = Utc.from_utc_datetime(&n).with_timezone(&Local); if d.naive_utc() != n { return i32::MIN; } d.offset().fix().local_minus_utc() })));
+            rs.push(("From<DateTime<Utc>>".into(), g(&mut || DateTime::<Local>::from(Utc.from_utc_datetime(&n)).offset().fix().local_minus_utc())));
+            rs.push(("timestamp_opt".into(), g(&mut || match Local.timestamp_opt(u, 0) { MappedLocalTime::Single(d) => d.offset().fix().local_minus_utc(), _ => i32::MIN })));
+            // deprecated date routes: the offset at 00:00:00 UTC of the instant's UTC date
+            rs.push(("offset_from_utc_date".into(), g(&mut || Local.offset_from_utc_date(&n.date()).fix().local_minus_utc())));
+            rs.push(("from_utc_date".into(), g(&mut || Local.from_utc_date(&n.date()).offset().fix().local_minus_utc())));
+        }
+        resp.inst.push(rs);
+    }
+    for &w in &req.wall {
+        let mut rs: Vec<(String, Result<Vec<i32>, String>)> = vec![];
+        if let Some(n) = ndt_of_unix(w) {
+            let gv = |f: &mut dyn FnMut() -> Vec<i32>| -> Result<Vec<i32>, String> { crate::guard::guard(|| f()) };
+            rs.push(("offset_from_local_datetime".into(), gv(&mut || mlt(Local.offset_from_local_datetime(&n).map(|o| o.local_minus_utc())))));
+            rs.push(("from_local_datetime".into(), gv(&mut || mlt(Local.from_local_datetime(&n).map(|d| if d.naive_local() != n { i32::MIN } else { d.offset().fix().local_minus_utc() })))));
+            rs.push(("and_local_timezone".into(), gv(&mut || mlt(n.and_local_timezone(Local).map(|d| d.offset().fix().local_minus_utc())))));
+            rs.push(("with_ymd_and_hms".into(), gv(&mut || mlt(Local.with_ymd_and_hms(n.year(), n.month(), n.day(), n.hour(), n.minute(), n.second()).map(|d| d.offset().fix().local_minus_utc())))));
+            // deprecated date routes: local midnight of the wall-clock date
+            rs.push(("offset_from_local_date".into(), gv(&mut || mlt(Local.offset_from_local_date(&n.date()).map(|o| o.local_minus_utc())))));
+            rs.push(("from_local_date".into(), gv(&mut || mlt(Local.from_local_date(&n.date()).map(|d| d.offset().fix().local_minus_utc())))));
+            rs.push(("ymd_opt".into(), gv(&mut || mlt(Local.ymd_opt(n.year(), n.month(), n.day()).map(|d| d.offset().fix().local_minus_utc())))));
+        }
+        resp.wall.push(rs);
+    }
+    println!("{}", serde_json::to_string(&resp).unwrap());
+    0
+}
+
+#[derive(Clone, Debug, Serialize, Deserialize)]
+pub enum TzSrc {
+    /// POSIX rule in TZ
+    Rule(Rule, bool),
+    /// file of the system database, named relative to the zoneinfo directory; colon prefix or not
+    System(String, bool),
+}
+#[derive(Clone, Debug, Serialize, Deserialize)]
+pub struct LCase {
+    pub tz: TzSrc,
+    pub extra: Vec<i64>,
+}
+pub struct LocalRoutes;
+impl SubCheck for LocalRoutes {
+    type Case = LCase;
+    fn name(&self) -> &'static str {
+        "local_routes"
+    }
+    fn rule(&self) -> &'static str {
+        "case = a zone named through TZ (generated POSIX rule, or a file of the system database by relative name) in a child process; every public route from Local to the two lookups (offset_from_utc_datetime, from_utc_datetime, with_timezone, From<DateTime<Utc>>, timestamp_opt, offset_from_local_datetime, from_local_datetime, and_local_timezone, with_ymd_and_hms, and the deprecated date routes at 00:00:00 of the date) answers what the zone data prescribe, probed around the transitions, inside gaps and folds and at the midnights next to them; non-trivial = a probe inside a gap or fold, or a midnight within a day of a transition"
+    }
+    fn strategy(&self) -> Option<BoxedStrategy<LCase>> {
+        let files: Vec<String> = system_files().into_iter().filter_map(|p| p.strip_prefix("/usr/share/zoneinfo/").map(String::from)).filter(|n| !n.starts_with("right/") && !n.starts_with("posix/")).collect();
+        let years = proptest::collection::vec(prop_oneof![4 => 1900i64..2100, 1 => cal::MIN_YEAR + 2..cal::MAX_YEAR - 2], 1..3);
+        let rule = (alt_rule(false), any::<bool>(), years).prop_map(|(r, e, ys)| LCase { tz: TzSrc::Rule(r, e), extra: ys.into_iter().map(|y| cal::days_from_civil(y, 7, 1) * 86_400 + 43_200).collect() });
+        if files.is_empty() {
+            return Some(rule.boxed());
+        }
+        let sys = (proptest::sample::select(files), any::<bool>(), 1950i64..2037).prop_map(|(n, colon, y)| LCase { tz: TzSrc::System(n, colon), extra: vec![cal::days_from_civil(y, 7, 20) * 86_400] });
+        Some(prop_oneof![3 => rule, 1 => sys].boxed())
+    }
+    fn check(&self, c: &LCase, obs: &mut Obs) -> Result<(), String> {
+        let (tzval, m) = match &c.tz {
+            TzSrc::Rule(rule, explicit) => {
+                let m = match rule {
+                    Rule::Fixed(t) => Model { types: vec![t.clone()], transitions: vec![], footer: Some(rule.clone()) },
+                    Rule::Alt { std, dst, .. } => Model { types: vec![std.clone(), dst.clone()], transitions: vec![], footer: Some(rule.clone()) },
+                };
+                (rule.to_tz_string(*explicit), m)
+            }
+            TzSrc::System(name, colon) => {
+                let bytes = std::fs::read(format!("/usr/share/zoneinfo/{name}")).map_err(|e| format!("harness: cannot read {name}: {e}"))?;
+                let m = match read_tzif(&bytes) { Some(m) => m, None => { obs.label("skipped_not_readable_by_reference_reader"); return Ok(()); } };
+                if let Some(r) = &m.footer { if !r.well_inside_year() { obs.label("skipped_footer_rule_outside_quantifier"); return Ok(()); } }
+                (if *colon { format!(":{name}") } else { name.clone() }, m)
+            }
+        };
+        if let Some(r) = &m.footer { if !r.well_inside_year() { obs.label("skipped_rule_outside_quantifier"); return Ok(()); } }
+        obs.label(if matches!(c.tz, TzSrc::Rule(..)) { "posix_rule" } else { "system_file" });
+        let (mut inst, mut wall) = probes(&m, &c.extra);
+        // the midnights around every probed change point (the deprecated date routes look there)
+        let pts: Vec<i64> = inst.iter().copied().step_by(5).take(24).collect();
+        for t in pts {
+            let d0 = t.div_euclid(86_400) * 86_400;
+            for d in [d0, d0 + 86_400] { inst.push(d + 1); wall.push(d + 1); }
+        }
+        inst.retain(|u| ndt_of_unix(*u).is_some());
+        wall.retain(|w| ndt_of_unix(*w).is_some());
+        inst.truncate(400);
+        wall.truncate(400);
+        let req = serde_json::to_string(&LReq { inst: inst.clone(), wall: wall.clone() }).map_err(|e| format!("harness: {e}"))?;
+        let exe = std::env::current_exe().map_err(|e| format!("harness: {e}"))?;
+        let out = std::process::Command::new(exe).arg("c05-child").arg(&req).env("TZ", &tzval).output().map_err(|e| format!("harness: cannot spawn child: {e}"))?;
+        if !out.status.success() {
+            return Err(format!("TZ={tzval}: child process failed ({}): {}", out.status, String::from_utf8_lossy(&out.stderr).chars().take(300).collect::<String>()));
+        }
+        let resp: LResp = serde_json::from_slice(&out.stdout).map_err(|e| format!("harness: bad child output: {e}"))?;
+        if resp.inst.len() != inst.len() || resp.wall.len() != wall.len() { return Err("harness: child answered a different number of probes".into()); }
+        for (u, routes) in inst.iter().zip(&resp.inst) {
+            for (route, r) in routes {
+                let at = if route.ends_with("_date") { u.div_euclid(86_400) * 86_400 } else { *u };
+                let exp = m.offset_at(at);
+                obs.nt_if(route.ends_with("_date") && m.change_points_near(at).iter().any(|p| (p - at).abs() <= 86_400), "midnight_within_a_day_of_a_transition");
+                match r {
+                    Ok(got) => ensure!(*got == exp, "TZ={tzval}: Local route {route} for instant {u}: got offset {got}, zone data prescribe {exp} (at {at})"),
+                    Err(p) => return Err(format!("TZ={tzval}: Local route {route} for instant {u} panicked: {p}")),
+                }
+            }
+        }
+        for (w, routes) in wall.iter().zip(&resp.wall) {
+            for (route, r) in routes {
+                let at = if route.ends_with("_date") || route == "ymd_opt" { w.div_euclid(86_400) * 86_400 } else { *w };
+                let got = match r { Ok(g) => g, Err(p) => return Err(format!("TZ={tzval}: Local route {route} for wall clock {w} panicked: {p}")) };
+                if exempt(&m, at) { obs.label("exempt_boundary_second"); continue; }
+                let pre = m.preimage(at);
+                if pre.len() > 2 { obs.label("wall_three_or_more_times_not_claimed"); continue; }
+                obs.nt_if(pre.len() != 1, "gap_or_fold");
+                let exp: Vec<i32> = pre.iter().map(|u| (at - u) as i32).collect();
+                ensure!(*got == exp, "TZ={tzval}: Local route {route} for wall clock {w} (looked up at {at}): got offsets {got:?}, zone data prescribe {exp:?}");
+            }
+        }
+        Ok(())
+    }
+}
+
 pub fn system_files() -> Vec<String> {
     fn walk(dir: &std::path::Path, out: &mut Vec<String>) {
         if let Ok(rd) = std::fs::read_dir(dir) {
@@ -292,7 +447,7 @@ pub fn system_files() -> Vec<String> {
 }
 
 pub fn subs() -> Vec<Box<dyn DynSub>> {
-    vec![Box::new(Synthetic), Box::new(Rules), Box::new(SystemZone)]
+    vec![Box::new(Synthetic), Box::new(Rules), Box::new(SystemZone), Box::new(LocalRoutes)]
 }
 
 /// F11: every fold is returned latest first
@@ -336,4 +491,5 @@ pub fn run(ctx: &Ctx) {
         }
     };
     ctx.run_cases(&SystemZone, pick);
+    ctx.run_prop(&LocalRoutes, ctx.n(2_000, 150_000));
 }
